@@ -403,3 +403,33 @@ Fixpoint session_reset (c : cfg) (hd : header) (s : bool * idata) (steps : list 
       save c hd (fst s) (snd s) rd tr ti :: session_reset c hd (step_state_reset c hd s (SSave rd tr ti)) t
   | st :: t => session_reset c hd (step_state_reset c hd s st) t
   end.
+
+(* ------------------------------------------------------------------ every channel selector of the exports *)
+(* PSDImage.topil(channel = k), 0 <= k: one plane as an "L" image *)
+Definition doc_topil_chan (hd : header) (st : idata) (k : Z) : res (option plane) :=
+  if h_channels hd <=? k then Err AssertErr
+  else do planes <- get_data st hd; Ok (nth_error planes (Z.to_nat k)).
+(* PSDImage.topil(ChannelID.TRANSPARENCY_MASK): the plane after the colour planes, None if there is none *)
+Definition doc_topil_transparency (hd : header) (st : idata) : res (option plane) :=
+  let k := Z.of_nat (pil_channels (cm_pil (h_cm hd) false)) in
+  if h_channels hd <=? k then Ok None else doc_topil_chan hd st k.
+
+(* PSDImage.numpy(channel): 0 = None (all), 1 = "color", 2 = "shape", 3 = "mask"; 1.0 is sample 255 *)
+Definition doc_numpy_sel (hd : header) (st : idata) (transp : bool) (sel : Z) : res (list plane) :=
+  let ones := repeat 255 (npix (h_w hd) (h_h hd)) in
+  if sel =? 3 then Ok [ones]
+  else if (sel =? 2) && negb transp then Ok [ones]
+  else
+    do ps <- doc_numpy hd st;
+    if sel =? 2 then Ok [last ps []]                    (* data[:, :, get_transparency_index] = -1 *)
+    else if sel =? 1 then Ok (firstn (Z.to_nat (cm_channels (h_cm hd))) ps)
+    else Ok ps.
+
+(* layer.topil(channel id): the stored plane, for colour ids and for -1 alike *)
+Definition layer_topil_chan (l : layer) (id : Z) : option plane :=
+  if (l_right l - l_left l =? 0) || (l_bottom l - l_top l =? 0) then None else find_chan id l.
+(* layer.numpy("color") / layer.numpy("shape") *)
+Definition layer_numpy_color (cm : cmode) (l : layer) : list plane :=
+  firstn (Z.to_nat (cm_channels cm)) (map snd (filter (fun c => 0 <=? fst c) (l_chans l))).
+Definition layer_numpy_shape (l : layer) : list plane :=
+  match find_chan (-1) l with Some a => [a] | None => [] end.
